@@ -590,7 +590,15 @@ def dup_bypass(ctx):
                     a = kw.value
             n += 1
             k = classify(caller, a, 0)
-            key = '%s|%s' % (caller.qual, norm(c.node)[:120])
+            # keyed by caller, callee and the guard argument alone: the other arguments of the call are not what
+            # the obligation is about (an added parameter must not detach a reviewed entry)
+            key = '%s|%s(allow_duplicate=%s)' % (caller.qual, q.rsplit('.', 1)[1], norm(a) if a is not None else 'default')
+            if key in seen:
+                i = 1
+                while '%s#%d' % (key, i) in seen:
+                    i += 1
+                key = '%s#%d' % (key, i)
+            seen.add(key)
             ok = k in ('false', 'cmp')
             obs.append(Ob('SA-DUPGUARD.bypass', key, ok, ctx.loc(caller, c.node),
                           '' if ok else 'the duplicate-name guard is switched off %s: a second entry of the same name is accepted and chained '
